@@ -6,7 +6,8 @@ package agent
 //
 // One real exit agent X (agent.New) with a scripted ingress endpoint connected directly.
 // Explicit-state BFS over histories of the real Agent.ManageRoute (add / re-add with another metric /
-// remove, over three networks) on top of each static configuration {exit disabled, exit enabled
+// remove, over three networks, the two IPv4 ones also in their IPv4-mapped IPv6 SPELLING
+// ::ffff:a.b.c.d/96+n for add / remove) on top of each static configuration {exit disabled, exit enabled
 // without routes, one network, two networks, domain patterns}; in EVERY reached state a crafted
 // STREAM_OPEN for every destination of the probe list (IPv4, IPv6, IPv4-mapped, unspecified,
 // loopback, allowed and disallowed names incl. case variants and multi-label names, a disallowed
@@ -14,7 +15,10 @@ package agent
 // outbound dial goes through the recording dial seam (vnet).
 // Oracle: a dial happens iff the destination IP lies in a configured exit network or in a
 // dynamic route that is present after the history (reference model = the set of added-and-not-
-// removed networks), or the requested name matches an allowed domain pattern. Otherwise no dial.
+// removed networks; a network is an address set, whatever its spelling; coverage judged by
+// net.IPNet.Contains), or the requested name matches an allowed domain pattern. Otherwise no dial.
+// The BFS state key holds the stored networks byte for byte (address and mask bytes), because the two
+// spellings of one network print alike (IPNet.String) yet are different implementation states.
 
 import (
 	"fmt"
@@ -45,11 +49,33 @@ var c19Configs = []c19Config{
 	{"net+domains", true, []string{"10.1.2.0/24"}, []string{"*.ok.test"}},
 }
 
-var c19DynNets = []string{"10.1.0.0/16", "10.1.2.0/24", "fd00::/8"}
+// The networks of the ManageRoute alphabet. 3 and 4 are the IPv4-mapped IPv6 SPELLINGS of 0 and 1:
+// the same networks (same address sets; net.IPNet.String / Contains and the routing manager treat
+// them as one), stored with a 16-byte address and a 16-byte mask instead of 4-byte ones.
+var c19DynNets = []string{"10.1.0.0/16", "10.1.2.0/24", "fd00::/8", "::ffff:10.1.0.0/112", "::ffff:10.1.2.0/120"}
+
+// c19Events is the alphabet: add / re-add with another metric / remove for every network in its
+// plain spelling, add / remove for the IPv4 networks in their IPv4-mapped spelling.
+var c19Events = []string{"add:0", "add2:0", "rm:0", "add:1", "add2:1", "rm:1", "add:2", "add2:2", "rm:2", "add:3", "rm:3", "add:4", "rm:4"}
+
+// c19NetID names the address set of a CIDR independently of its spelling: the 16-byte form of the
+// (masked) address and the prefix length counted in 128 bits. Reference-model identity of a network.
+func c19NetID(cidr string) string {
+	_, n, err := net.ParseCIDR(cidr)
+	if err != nil {
+		return "bad:" + cidr
+	}
+	ones, bits := n.Mask.Size()
+	if bits == 32 {
+		ones += 96
+	}
+	return fmt.Sprintf("%x/%d", []byte(n.IP.To16()), ones)
+}
 
 type c19Probe struct {
 	Label string
 	IP    string // literal IP destination, or
+	V6    bool   // the literal is sent as a 16-byte AddrTypeIPv6 address (IPv4-mapped spelling on the wire)
 	Name  string // domain destination (resolved through the pre-seeded cache)
 	To    string // what the name resolves to
 }
@@ -59,7 +85,10 @@ var c19Probes = []c19Probe{
 	{Label: "10.1.9.9", IP: "10.1.9.9"},
 	{Label: "10.2.0.1", IP: "10.2.0.1"},
 	{Label: "11.0.0.1", IP: "11.0.0.1"},
-	{Label: "mapped-10.1.2.3", IP: "::ffff:10.1.2.3"},
+	{Label: "mapped-10.1.2.3", IP: "::ffff:10.1.2.3", V6: true},
+	{Label: "mapped-10.1.9.9", IP: "::ffff:10.1.9.9", V6: true},
+	{Label: "mapped-10.2.0.1", IP: "::ffff:10.2.0.1", V6: true},
+	{Label: "mapped-11.0.0.1", IP: "::ffff:11.0.0.1", V6: true},
 	{Label: "fd00::1", IP: "fd00::1"},
 	{Label: "fd80::1", IP: "fd80::1"},
 	{Label: "::1", IP: "::1"},
@@ -127,8 +156,9 @@ func c19Run(r *vmc.Result, cfgc c19Config, hist []string, onlyProbe string) (key
 	ep := nt.endpoint(0)
 	nt.settle(ep)
 	X := nt.agents[1]
-	// reference model of the dynamic routes
-	dyn := map[string]bool{}
+	// reference model of the dynamic routes: the set of networks (address sets, whatever their
+	// spelling) that were added and not removed since; value = one CIDR text of that network
+	dyn := map[string]string{}
 	for _, ev := range hist {
 		p := strings.Split(ev, ":")
 		netw := c19DynNets[int(p[1][0]-'0')]
@@ -139,11 +169,11 @@ func c19Run(r *vmc.Result, cfgc c19Config, hist []string, onlyProbe string) (key
 				metric = 7
 			}
 			if _, err := X.ManageRoute("add", netw, metric); err == nil {
-				dyn[netw] = true
+				dyn[c19NetID(netw)] = netw
 			}
 		case "rm":
 			if _, err := X.ManageRoute("remove", netw, 0); err == nil {
-				delete(dyn, netw)
+				delete(dyn, c19NetID(netw))
 			}
 		}
 	}
@@ -180,7 +210,7 @@ func c19Run(r *vmc.Result, cfgc c19Config, hist []string, onlyProbe string) (key
 				}
 			}
 		}
-		for c := range dyn {
+		for _, c := range dyn {
 			if c19Contains(c, destIP) {
 				permitted = true
 			}
@@ -192,6 +222,8 @@ func c19Run(r *vmc.Result, cfgc c19Config, hist []string, onlyProbe string) (key
 		var t *nsTunnel
 		if pr.Name != "" {
 			t = ep.openDomain(1, sid, 1000+sid, nil, pr.Name, 443)
+		} else if pr.V6 {
+			t = ep.open(1, sid, 1000+sid, nil, protocol.AddrTypeIPv6, destIP.To16(), 443)
 		} else {
 			t = ep.openIP(1, sid, 1000+sid, nil, destIP, 443)
 		}
@@ -228,7 +260,26 @@ func c19Run(r *vmc.Result, cfgc c19Config, hist []string, onlyProbe string) (key
 					clause = "removed-dynamic-route-still-permitted"
 				}
 			}
-			r.Violate("C19/dialed-unpermitted/"+clause, fmt.Sprintf("config %s after route history %v: open for %s made the exit dial %v although no configured network, present dynamic route (%v) or allowed pattern covers it", cfgc.Name, hist, pr.Label, ds, c19Keys(dyn)), rep)
+			if clause == "removed-dynamic-route-still-permitted" {
+				// did the history name a covering network in more than one spelling?
+				spell := map[string]map[string]bool{}
+				for _, ev := range hist {
+					nw := c19DynNets[int(ev[strings.Index(ev, ":")+1]-'0')]
+					if c19Contains(nw, destIP) {
+						if spell[c19NetID(nw)] == nil {
+							spell[c19NetID(nw)] = map[string]bool{}
+						}
+						spell[c19NetID(nw)][nw] = true
+					}
+				}
+				for _, sp := range spell {
+					if len(sp) > 1 {
+						clause += "/network-named-in-two-spellings"
+						break
+					}
+				}
+			}
+			r.Violate("C19/dialed-unpermitted/"+clause, fmt.Sprintf("config %s after route history %v: open for %s made the exit dial %v although no configured network, present dynamic route (%v) or allowed pattern covers it", cfgc.Name, hist, pr.Label, ds, c19Vals(dyn)), rep)
 		}
 		if !dialed && permitted {
 			// not required by the statement ("only when"): recorded as an outcome, not a violation
@@ -241,23 +292,31 @@ func c19Run(r *vmc.Result, cfgc c19Config, hist []string, onlyProbe string) (key
 		}
 	}
 	// state key: the real allowed list + the real dynamic routes + the model
+	// (the stored networks byte for byte: the two spellings of a network print alike but are
+	// different implementation states)
 	var real []string
 	if X.exitHandler != nil {
-		real = X.exitHandler.VerifAllowedRoutes()
+		real = X.exitHandler.VerifAllowedRoutesRaw()
 	}
 	var dr []string
 	for _, lr := range X.routeMgr.GetDynamicRoutes() {
-		dr = append(dr, fmt.Sprintf("%s/%d", lr.Network.String(), lr.Metric))
+		dr = append(dr, fmt.Sprintf("%x/%x/%d", []byte(lr.Network.IP), []byte(lr.Network.Mask), lr.Metric))
 	}
 	sort.Strings(dr)
 	key = fmt.Sprintf("%v|%v|%v", real, dr, c19Keys(dyn))
-	for i := range c19DynNets {
-		enabled = append(enabled, fmt.Sprintf("add:%d", i), fmt.Sprintf("add2:%d", i), fmt.Sprintf("rm:%d", i))
-	}
-	return key, enabled
+	return key, c19Events
 }
 
-func c19Keys(m map[string]bool) []string {
+func c19Vals(m map[string]string) []string {
+	var v []string
+	for _, x := range m {
+		v = append(v, x)
+	}
+	sort.Strings(v)
+	return v
+}
+
+func c19Keys(m map[string]string) []string {
 	var k []string
 	for x := range m {
 		k = append(k, x)
@@ -268,7 +327,7 @@ func c19Keys(m map[string]bool) []string {
 
 func TestVerif_C19(t *testing.T) {
 	r := vmc.New("C19", "model_checking")
-	r.Rule = "BFS over histories of the real ManageRoute (add / re-add with another metric / remove over three networks) per static exit configuration; in every reached state every probe destination is opened through the real processFrame and the dial seam records connections; non-trivial = distinct (configuration, probe) pairs that were permitted; outcomes = distinct (probe, permitted, dialed)"
+	r.Rule = "BFS over histories of the real ManageRoute (add / re-add with another metric / remove over three networks; the two IPv4 networks also in their IPv4-mapped IPv6 spelling for add / remove) per static exit configuration; states told apart by the stored address and mask bytes; in every reached state every probe destination (IPv4-mapped ones sent as 16-byte IPv6 addresses) is opened through the real processFrame and the dial seam records connections; non-trivial = distinct (configuration, probe) pairs that were permitted; outcomes = distinct (probe, permitted, dialed)"
 	r.Assume("name resolution is replaced by a pre-seeded resolver cache (no DNS in the sandbox); outbound TCP goes through the vnet dial seam substituted for net.Dialer in exit/handler.go")
 	var srp c19SchedReplay
 	if r.ReplayInto(&srp) && srp.Sched {
@@ -295,10 +354,13 @@ func TestVerif_C19(t *testing.T) {
 	}
 	c19Sched(r)
 	depth := vmc.Pick(r, 3, 4)
-	for _, c := range c19Configs {
+	for ci, c := range c19Configs {
 		c := c
 		if r.Expired() {
 			break
+		}
+		if r.Shards > 1 && ci%r.Shards != r.Shard {
+			continue // worker processes split the static configurations (the schedule half splits itself)
 		}
 		st := vmc.BFS(r, func(hist []string) (string, []string) {
 			return c19Run(r, c, hist, "")
